@@ -102,7 +102,7 @@ Definition geval (a : gatom) (m : tmsg) (ms : option N) (p t : fview) : bool :=
   | GR0WriteOnly => (v_xop p =? p9_xattrNone) && (open_mode (v_flags p) =? p9_WriteOnly)
   | GR2Empty => (v_xop p =? p9_xattrWalk) && (msg_count m =? 0) && negb (v_xsize p =? 0)
   | GR2Range => (v_xop p =? p9_xattrWalk) && negb (msg_count m =? 0)
-                && (v_xlen p <? (msg_off m + msg_count m) mod two64)
+                && ((v_xlen p <? msg_off m) || (v_xlen p - msg_off m <? msg_count m))
   | GRBadOp => negb (v_xop p =? p9_xattrNone) && negb (v_xop p =? p9_xattrWalk)
   | GW0ReadOnly => (v_xop p =? p9_xattrNone) && (open_mode (v_flags p) =? p9_ReadOnly)
   | GW1Off => (v_xop p =? p9_xattrCreate) && negb (v_xlen p =? msg_off m)
